@@ -681,14 +681,15 @@ allowed list REFUTES the fact and breaks `observer_accesses_allowed`. -/
 * `ext:fmt.Sprintf[ast]` — the text of that sanity assertion prints the call stack;
 * `debugger:…` — the evaluator hands node, scope and thread id to the debugger interface
   (`VisitState`, `VisitStepInState`, `VisitStepOutState`) and the provider's mutex table / thread pool
-  references (`SetLockingState`, `SetThreadPool`, stored once, read by `lockstate`).
+  references (`SetLockingState`, `SetThreadPool`, stored once, read by `lockstate`); a sink execution tells
+  the debugger that the worker thread finished it (`RecordThreadFinished`: debugger data only).
 NOT allowed (any of these refutes the fact): `scope:SetValue`, `scope:SetLocalValue`, `scope:NewChild`
 (appends a child to the program's scope tree), `scope:Clear`, `scopepkg:*`, any `logger:*`, any
 `runtime:*` (evaluation), `astwrite:*`, `rtwrite:*`, `otherwrite:*`, `pkgvarwrite:*`. -/
 def allowedAccesses : List String :=
   ["scope:Parent", "scope:Name", "scope:ToJSONObject", "ast:Equals", "ext:fmt.Sprintf[ast]",
    "debugger:VisitState", "debugger:VisitStepInState", "debugger:VisitStepOutState",
-   "debugger:SetLockingState", "debugger:SetThreadPool"]
+   "debugger:SetLockingState", "debugger:SetThreadPool", "debugger:RecordThreadFinished"]
 
 /-- **Obligation over the regenerated fact (a), (b), (c).** The evaluator side of the debugger
 touches the program's scopes only through `Parent` / `Name` / `ToJSONObject`, calls no logger
